@@ -8,7 +8,8 @@ for the empty trie and for every loaded node, and the operations maintain it:
      EXCEPT when the load of the last remaining child of a branch fails (`kvNotFound`, decoding error, slice panic): Go
      has flagged that branch already, its ancestors not yet, so `DirtyUp` is lost along that one path (`DirtyUp1`);
   5. `commitNode_allClean`, `commit_allClean`                              : with `Proper`, `Commit` saves every dirty node;
-  6. `markToCollect_dirtyUp`, `markAll_dirtyUp`, `loadRoot_dirtyUp`, `markedRoot_dirtyUp`;
+  6. `markToCollect_dirtyUp`, `markAll_dirtyUp`, `markKids_dirtyUp`, `markParallel_dirtyUp`, `markRoot_dirtyUp` (both
+     collection strategies of `GetPath`), `loadRoot_dirtyUp`, `markedRoot_dirtyUp`;
   7. `update_dirtyUp`, `deleteKey_dirtyUp`, `rootHash_dirtyUp`, `dirtyUp_normRoot`, `commit_root_dirtyUp`;
   8.-10. `getPath_dirtyUp`, `blockProof_dirtyUp`, `importTrie_dirtyUp`, `rollback_dirtyUp`, `rollbackTrie_dirtyUp`,
      `copyRoot_allClean`.
@@ -808,6 +809,80 @@ theorem markAll_dirtyUp (hasDb : Bool) (s : Store) : ∀ (keys : List (List Nib)
     · exact markToCollect_dirtyUp hasDb s _ n k hn
     · exact ih _ (markToCollect_dirtyUp hasDb s _ n k hn)
 
+/-- the per-branch loop of the parallel strategy: marks do not touch the dirty flags of the children -/
+theorem markKids_dirty (hasDb : Bool) (s : Store) : ∀ (keys : List (List Nib)) (ch : Nib → WN) (i : Nib),
+    ((markKids hasDb s ch keys).1 i).dirty = (ch i).dirty := by
+  intro keys
+  induction keys with
+  | nil => intro ch i; rfl
+  | cons key rest ih =>
+    intro ch i
+    cases key with
+    | nil => rfl
+    | cons k ks =>
+      have hu : (upd ch k (markToCollect hasDb s (fuelFor (k :: ks) - 1) (ch k) ks).node i).dirty = (ch i).dirty := by
+        unfold upd; split
+        · rename_i e; rw [markToCollect_dirty, e]
+        · rfl
+      simp only [markKids]
+      split
+      · exact hu
+      · rw [ih, hu]
+
+/-- 6. the per-branch loop keeps `DirtyUp` of every child, whether it succeeds or not -/
+theorem markKids_dirtyUp (hasDb : Bool) (s : Store) : ∀ (keys : List (List Nib)) (ch : Nib → WN),
+    (∀ i, DirtyUp (ch i)) → ∀ i, DirtyUp ((markKids hasDb s ch keys).1 i) := by
+  intro keys
+  induction keys with
+  | nil => intro ch hc; exact hc
+  | cons key rest ih =>
+    intro ch hc
+    cases key with
+    | nil => exact hc
+    | cons k ks =>
+      have hu := dirtyUp_upd k hc (markToCollect_dirtyUp hasDb s (fuelFor (k :: ks) - 1) (ch k) ks (hc k))
+      simp only [markKids]
+      split
+      · exact hu
+      · exact ih _ hu
+
+theorem markParallel_dirty (hasDb : Bool) (s : Store) (keys : List (List Nib)) (n : WN) :
+    (markParallel hasDb s n keys).node.dirty = n.dirty := by
+  cases n with
+  | routing h ch w d tc => rfl
+  | nil => exact markAll_dirty hasDb s keys _
+  | empty => exact markAll_dirty hasDb s keys _
+  | hashRef _ _ => exact markAll_dirty hasDb s keys _
+  | value _ _ _ _ => exact markAll_dirty hasDb s keys _
+  | short _ _ _ _ _ => exact markAll_dirty hasDb s keys _
+
+/-- 6. the parallel strategy keeps `DirtyUp`, whether it succeeds or not -/
+theorem markParallel_dirtyUp (hasDb : Bool) (s : Store) (keys : List (List Nib)) (n : WN) (hn : DirtyUp n) :
+    DirtyUp (markParallel hasDb s n keys).node := by
+  cases n with
+  | routing h ch w d tc =>
+    exact ⟨fun hd i => by rw [markKids_dirty]; exact hn.1 hd i, markKids_dirtyUp hasDb s keys ch hn.2⟩
+  | nil => exact markAll_dirtyUp hasDb s keys _ hn
+  | empty => exact markAll_dirtyUp hasDb s keys _ hn
+  | hashRef _ _ => exact markAll_dirtyUp hasDb s keys _ hn
+  | value _ _ _ _ => exact markAll_dirtyUp hasDb s keys _ hn
+  | short _ _ _ _ _ => exact markAll_dirtyUp hasDb s keys _ hn
+
+theorem markRoot_dirty (hasDb : Bool) (s : Store) (keys : List (List Nib)) (n : WN) :
+    (markRoot hasDb s n keys).node.dirty = n.dirty := by
+  unfold markRoot
+  split
+  · exact markParallel_dirty hasDb s keys n
+  · exact markAll_dirty hasDb s keys n
+
+/-- 6. the marking of `GetPath` (either strategy) keeps `DirtyUp`, whether it succeeds or not -/
+theorem markRoot_dirtyUp (hasDb : Bool) (s : Store) (keys : List (List Nib)) (n : WN) (hn : DirtyUp n) :
+    DirtyUp (markRoot hasDb s n keys).node := by
+  unfold markRoot
+  split
+  · exact markParallel_dirtyUp hasDb s keys n hn
+  · exact markAll_dirtyUp hasDb s keys n hn
+
 /-- 6. loading the root reference -/
 theorem loadRoot_dirtyUp (t : WT) {root : WN} (hl : Mark.loadRoot t = .ok root) (hu : DirtyUp t.root) :
     DirtyUp root ∧ root.dirty = t.root.dirty := by
@@ -1031,7 +1106,7 @@ theorem getPath_dirtyUp (H : Bytes → Bytes) (t : WT) (keys : List (List Nib)) 
   have e : getPath H t keys = (match Mark.loadRoot t with
     | .err e => (t, .err e)
     | .ok root =>
-      let m := markAll t.hasDb t.store root keys
+      let m := markRoot t.hasDb t.store root keys
       match m.err with
       | some .kvNotFound => ({ t with root := m.node }, .err .notFound)
       | some e => ({ t with root := m.node }, .err e)
@@ -1042,7 +1117,7 @@ theorem getPath_dirtyUp (H : Bytes → Bytes) (t : WT) (keys : List (List Nib)) 
   cases hl : Mark.loadRoot t with
   | err e => exact hu
   | ok root =>
-    have hm := markAll_dirtyUp t.hasDb t.store keys root (loadRoot_dirtyUp t hl hu).1
+    have hm := markRoot_dirtyUp t.hasDb t.store keys root (loadRoot_dirtyUp t hl hu).1
     simp only
     split
     · exact hm
